@@ -70,15 +70,82 @@ func runC01(c *Ctx) {
 	a.rule = "C01.R2"
 	neMA := a.method("", "NetworkEngine", "MatchAll")
 	neAdd := a.method("", "NetworkEngine", "AddRule")
+	// the table list may be wrapped in a small type whose methods do the two loops: the engine's
+	// method then only delegates, and the loop is judged in the delegate with the arguments the
+	// engine passes (table list = the engine's lookupTables field, request / rule / index = its own
+	// parameters)
+	delegateOf := func(fn *ssa.Function, method string) (*ssa.Function, *ssa.Call) {
+		if len(invokesOf(fn, method)) > 0 {
+			return nil, nil
+		}
+		var h *ssa.Function
+		var at *ssa.Call
+		n := 0
+		eachInstr(fn, func(_ *ssa.BasicBlock, in ssa.Instruction) {
+			if cl, ok := in.(*ssa.Call); ok {
+				if cal := cl.Call.StaticCallee(); cal != nil && c.P.IsNewHelper(cal) && len(invokesOf(cal, method)) > 0 {
+					h, at = cal, cl
+					n++
+				}
+			}
+		})
+		if n != 1 {
+			return nil, nil
+		}
+		return h, at
+	}
 	if neMA != nil {
 		g := NewGate(c.P)
 		g.Inline = inlineOnly()
-		s := g.Eval(neMA)
+		judged := neMA
+		var argOf map[*E]*E // delegate parameter -> what the engine passes
+		if h, at := delegateOf(neMA, "MatchAll"); h != nil {
+			g.NoInline[FuncName(h)] = true
+			s0 := g.Eval(neMA)
+			okRet := retReaching(neMA, 0)[at]
+			g = NewGate(c.P)
+			g.Inline = inlineOnly()
+			argOf = map[*E]*E{}
+			hp := g.ParamExprs(h)
+			for i, a := range at.Call.Args {
+				if i < len(hp) {
+					argOf[hp[i]] = s0.Env[a]
+				}
+			}
+			// keys are expressions of the new gate's universe; values of the engine's evaluation: compare by key text
+			judged = h
+			if !okRet {
+				judged = neMA // the delegate's result is not what the engine returns: fail below
+			}
+		}
+		s := g.Eval(judged)
 		u := g.U
-		ps := g.ParamExprs(neMA)
-		loops := loopsOf(neMA)
+		ps := g.ParamExprs(judged)
+		isTables := func(e *E) bool {
+			if e == nil {
+				return false
+			}
+			if argOf != nil {
+				if a := argOf[e]; a != nil {
+					return a.Op == "field" && a.Aux == "lookupTables"
+				}
+				return false
+			}
+			return e.Op == "field" && e.Aux == "lookupTables"
+		}
+		isRequest := func(e *E) bool {
+			if argOf != nil {
+				a := argOf[e]
+				return a != nil && a.Op == "param" && strings.HasSuffix(typeStr(a.Typ), "rules.Request")
+			}
+			return e == ps[1]
+		}
+		loops := loopsOf(judged)
 		bad := "no call of Table.MatchAll"
 		var pos = neMA.Pos()
+		neMA0 := neMA
+		neMA := judged
+		_ = neMA0
 		for _, site := range invokesOf(neMA, "MatchAll") {
 			pos = site.Pos()
 			ok, coll, why := fullUnconditionalLoop(u, s, loops, site)
@@ -86,9 +153,9 @@ func runC01(c *Ctx) {
 			switch {
 			case !ok:
 				bad = why
-			case s.Env[coll] == nil || s.Env[coll].Op != "field" || s.Env[coll].Aux != "lookupTables":
+			case !isTables(s.Env[coll]):
 				bad = "the loop does not range over the engine's table list"
-			case ce == nil || len(ce.Args) < 2 || ce.Args[1] != ps[1]:
+			case ce == nil || len(ce.Args) < 2 || !isRequest(ce.Args[1]):
 				bad = "the tables are not queried with the engine's request parameter"
 			default:
 				// the result of each table must be appended (spread) to a value reaching the return
@@ -113,12 +180,47 @@ func runC01(c *Ctx) {
 	if neAdd != nil {
 		g := NewGate(c.P)
 		g.Inline = inlineOnly()
-		s := g.Eval(neAdd)
+		judged := neAdd
+		var argOf map[*E]*E
+		if h, at := delegateOf(neAdd, "TryAdd"); h != nil {
+			g.NoInline[FuncName(h)] = true
+			s0 := g.Eval(neAdd)
+			g = NewGate(c.P)
+			g.Inline = inlineOnly()
+			argOf = map[*E]*E{}
+			hp := g.ParamExprs(h)
+			for i, a := range at.Call.Args {
+				if i < len(hp) {
+					argOf[hp[i]] = s0.Env[a]
+				}
+			}
+			judged = h
+		}
+		s := g.Eval(judged)
 		u := g.U
-		ps := g.ParamExprs(neAdd)
+		ps := g.ParamExprs(judged)
+		isTables := func(e *E) bool {
+			if e == nil {
+				return false
+			}
+			if argOf != nil {
+				a := argOf[e]
+				return a != nil && a.Op == "field" && a.Aux == "lookupTables"
+			}
+			return e.Aux == "lookupTables"
+		}
+		isParam := func(e *E, k int) bool {
+			if argOf != nil {
+				a := argOf[e]
+				return a != nil && a.Op == "param" && k < len(neAdd.Params) && a.Aux == neAdd.Params[k].Name()
+			}
+			return e == ps[k]
+		}
+		neAdd0 := neAdd
+		neAdd := judged
 		loops := loopsOf(neAdd)
 		bad := "no call of Table.TryAdd"
-		pos := neAdd.Pos()
+		pos := neAdd0.Pos()
 		for _, site := range invokesOf(neAdd, "TryAdd") {
 			pos = site.Pos()
 			l := innermostLoop(loops, site.Block())
@@ -137,11 +239,11 @@ func runC01(c *Ctx) {
 			}
 			body := u.bdd.And(s.RC[l.Header], contCond(u, s, l))
 			switch {
-			case ro == nil || !ro.Full || s.Env[ro.Coll] == nil || s.Env[ro.Coll].Aux != "lookupTables":
+			case ro == nil || !ro.Full || !isTables(s.Env[ro.Coll]):
 				bad = "the loop is not a complete range over the engine's table list"
 			case s.RCAt(site) != body:
 				bad = "TryAdd is not offered to every table reached"
-			case len(ce.Args) < 3 || ce.Args[1] != ps[1] || ce.Args[2] != ps[2]:
+			case len(ce.Args) < 3 || !isParam(ce.Args[1], 1) || !isParam(ce.Args[2], 2):
 				bad = "TryAdd is not called with the rule and its storage index"
 			case early != u.bdd.And(body, acc):
 				bad = "the loop does not stop exactly when a table accepts the rule (a rule may land in two tables or in none): exits when " + clip(u.ShowBool(early), 120)
